@@ -198,63 +198,48 @@ theorem brda_prefix_off (a : Acc) :
     run false ⟨.dispatch, a⟩ [66, 82, 68, 65, 58] = ⟨.skip, a⟩ := by
   simp [run, step, isUpper, afterKey, kSF, kDA, kFN, kFNDA, kBRDA, LF, U32MAX]
 
-theorem brda_record_bytes_on (a : Acc) (l blk br : Digits) (taken eol : Bytes)
+theorem brda_record_bytes_on (a : Acc) (l : Digits) (exc : Bool) (blk br : Digits) (taken eol : Bytes)
     (hl : l.WF U32MAX) (hb : blk.WF U64MAX) (hr : br.WF U32MAX) (ht : noEol taken)
     (heol : eol = [LF] ∨ eol = [CR, LF]) :
     run true ⟨.dispatch, a⟩
-        ([66, 82, 68, 65, 58] ++ l.bytes ++ [44] ++ blk.bytes ++ [44] ++ br.bytes ++ [44] ++ taken ++ eol)
+        ([66, 82, 68, 65, 58] ++ l.bytes ++ [44] ++ excBytes exc ++ blk.bytes ++ [44] ++ br.bytes ++ [44] ++ taken ++ eol)
       = ⟨.dispatch, commitBranch a l.val br.val (takenOf taken)⟩ := by
   obtain ⟨d, rest, rfl, hd, hrest⟩ := eol_cases eol heol
-  have e1 : [66, 82, 68, 65, 58] ++ l.bytes ++ [44] ++ blk.bytes ++ [44] ++ br.bytes ++ [44] ++ taken ++ d :: rest
-      = [66, 82, 68, 65, 58] ++ ((l.bytes ++ [44]) ++ ((blk.bytes ++ [44]) ++ ((br.bytes ++ [44])
-          ++ ((taken ++ [d]) ++ rest)))) := by simp
-  rw [e1, run_append, brda_prefix_on, run_append,
-    run_field true U32MAX .brFirst .brLine .brAfterLine a
-      (fun b hb => by simp [step, hb]) (fun n b => rfl) l hl 44 comma_not_digit,
-    run_append,
-    run_field true U64MAX (.brAfterLine l.val) (.brBlock l.val) (fun _ => .brAfterBlock l.val) a
-      (fun b _ => rfl) (fun n b => rfl) blk hb 44 comma_not_digit,
-    run_append,
-    run_field true U32MAX (.brAfterBlock l.val) (.brBranch l.val) (.brAfterBranch l.val) a
-      (fun b _ => rfl) (fun n b => rfl) br hr 44 comma_not_digit,
-    run_append, run_brAfterBranch a l.val br.val taken d ht hd]
-  exact run_eol_rest true _ rest hrest
-
-/-- an exception branch record `BRDA:<line>,e<block>,<branch>,<taken>` with branch parsing on: the
-`e` ends the block field (no digit test there), the block digits are read as the BRANCH number, and
-`<branch>,<taken>` as the taken text – it contains a comma, so the branch counts as taken -/
-theorem brdaExc_record_bytes_on (a : Acc) (l blk br : Digits) (taken eol : Bytes)
-    (hl : l.WF U32MAX) (hb : blk.WF U32MAX) (hr : br.WF U32MAX) (ht : noEol taken)
-    (heol : eol = [LF] ∨ eol = [CR, LF]) :
-    run true ⟨.dispatch, a⟩
-        ([66, 82, 68, 65, 58] ++ l.bytes ++ [44] ++ [101] ++ blk.bytes ++ [44] ++ br.bytes ++ [44] ++ taken ++ eol)
-      = ⟨.dispatch, commitBranch a l.val blk.val true⟩ := by
-  obtain ⟨d, rest, rfl, hd, hrest⟩ := eol_cases eol heol
-  have e1 : [66, 82, 68, 65, 58] ++ l.bytes ++ [44] ++ [101] ++ blk.bytes ++ [44] ++ br.bytes ++ [44] ++ taken ++ d :: rest
-      = [66, 82, 68, 65, 58] ++ ((l.bytes ++ [44]) ++ (101 :: ((blk.bytes ++ [44])
-          ++ (((br.bytes ++ [44] ++ taken) ++ [d]) ++ rest)))) := by simp
-  have he : step true ⟨.brAfterLine l.val, a⟩ 101 = ⟨.brAfterBlock l.val, a⟩ := by
-    simp [step, digitsStep, isDigit]
-  have htk : noEol (br.bytes ++ [44] ++ taken) := by
-    intro x hx
-    simp only [List.mem_append, List.mem_singleton] at hx
-    rcases hx with (hx | hx) | hx
-    · simp only [Digits.bytes, List.mem_cons] at hx
-      rcases hx with hx | hx
-      · subst hx; have := isDigit_le _ hr.1; simp [LF, CR]; omega
-      · have := isDigit_le _ (hr.2.1 x hx); simp [LF, CR]; omega
-    · subst hx; simp [LF, CR]
-    · exact ht x hx
-  have htaken : takenOf (br.bytes ++ [44] ++ taken) = true := by
-    simp [takenOf]
-  rw [e1, run_append, brda_prefix_on, run_append,
-    run_field true U32MAX .brFirst .brLine .brAfterLine a
-      (fun b hb => by simp [step, hb]) (fun n b => rfl) l hl 44 comma_not_digit,
-    run_cons, he, run_append,
-    run_field true U32MAX (.brAfterBlock l.val) (.brBranch l.val) (.brAfterBranch l.val) a
-      (fun b _ => rfl) (fun n b => rfl) blk hb 44 comma_not_digit,
-    run_append, run_brAfterBranch a l.val blk.val _ d htk hd, htaken]
-  exact run_eol_rest true _ rest hrest
+  have hne : ∀ b, isDigit b = true → b ≠ 101 := by
+    intro b hb e; subst e; simp [isDigit] at hb
+  cases exc with
+  | false =>
+    have e1 : [66, 82, 68, 65, 58] ++ l.bytes ++ [44] ++ excBytes false ++ blk.bytes ++ [44] ++ br.bytes ++ [44] ++ taken ++ d :: rest
+        = [66, 82, 68, 65, 58] ++ ((l.bytes ++ [44]) ++ ((blk.bytes ++ [44]) ++ ((br.bytes ++ [44])
+            ++ ((taken ++ [d]) ++ rest)))) := by simp [excBytes]
+    rw [e1, run_append, brda_prefix_on, run_append,
+      run_field true U32MAX .brFirst .brLine .brAfterLine a
+        (fun b hb => by simp [step, hb]) (fun n b => rfl) l hl 44 comma_not_digit,
+      run_append,
+      run_field true U64MAX (.brAfterLine l.val) (.brBlock l.val) (fun _ => .brAfterBlock l.val) a
+        (fun b hb => by simp [step, hne b hb]) (fun n b => rfl) blk hb 44 comma_not_digit,
+      run_append,
+      run_field true U32MAX (.brAfterBlock l.val) (.brBranch l.val) (.brAfterBranch l.val) a
+        (fun b _ => rfl) (fun n b => rfl) br hr 44 comma_not_digit,
+      run_append, run_brAfterBranch a l.val br.val taken d ht hd]
+    exact run_eol_rest true _ rest hrest
+  | true =>
+    -- the `e` is skipped: the block digits start from `brBlock l 0`, which reads like `brAfterLine`
+    have e1 : [66, 82, 68, 65, 58] ++ l.bytes ++ [44] ++ excBytes true ++ blk.bytes ++ [44] ++ br.bytes ++ [44] ++ taken ++ d :: rest
+        = [66, 82, 68, 65, 58] ++ ((l.bytes ++ [44]) ++ (101 :: ((blk.bytes ++ [44]) ++ ((br.bytes ++ [44])
+            ++ ((taken ++ [d]) ++ rest))))) := by simp [excBytes]
+    have he : step true ⟨.brAfterLine l.val, a⟩ 101 = ⟨.brBlock l.val 0, a⟩ := by simp [step]
+    rw [e1, run_append, brda_prefix_on, run_append,
+      run_field true U32MAX .brFirst .brLine .brAfterLine a
+        (fun b hb => by simp [step, hb]) (fun n b => rfl) l hl 44 comma_not_digit,
+      run_cons, he, run_append,
+      run_field true U64MAX (.brBlock l.val 0) (.brBlock l.val) (fun _ => .brAfterBlock l.val) a
+        (fun b _ => rfl) (fun n b => rfl) blk hb 44 comma_not_digit,
+      run_append,
+      run_field true U32MAX (.brAfterBlock l.val) (.brBranch l.val) (.brAfterBranch l.val) a
+        (fun b _ => rfl) (fun n b => rfl) br hr 44 comma_not_digit,
+      run_append, run_brAfterBranch a l.val br.val taken d ht hd]
+    exact run_eol_rest true _ rest hrest
 
 theorem digits_noLF (d : Digits) (bound : Nat) (h : d.WF bound) : noLF d.bytes := by
   intro x hx
@@ -273,7 +258,7 @@ theorem noLF_append {xs ys : Bytes} (h1 : noLF xs) (h2 : noLF ys) : noLF (xs ++ 
 theorem noLF_of_noEol {xs : Bytes} (h : noEol xs) : noLF xs := fun x hx => (h x hx).1
 
 theorem brda_record_bytes_off (a : Acc) (l : Digits) (exc : Bool) (blk br : Digits) (taken eol : Bytes)
-    (hl : l.WF U32MAX) (hb : noLF blk.bytes) (hr : br.WF U32MAX) (ht : noEol taken)
+    (hl : l.WF U32MAX) (hb : blk.WF U64MAX) (hr : br.WF U32MAX) (ht : noEol taken)
     (heol : eol = [LF] ∨ eol = [CR, LF]) :
     run false ⟨.dispatch, a⟩
         ([66, 82, 68, 65, 58] ++ l.bytes ++ [44] ++ excBytes exc ++ blk.bytes ++ [44] ++ br.bytes ++ [44] ++ taken ++ eol)
@@ -283,7 +268,7 @@ theorem brda_record_bytes_off (a : Acc) (l : Digits) (exc : Bool) (blk br : Digi
     intro x hx; cases exc <;> simp [excBytes] at hx; subst hx; decide
   have hbody : noLF (l.bytes ++ [44] ++ excBytes exc ++ blk.bytes ++ [44] ++ br.bytes ++ [44] ++ taken) :=
     noLF_append (noLF_append (noLF_append (noLF_append (noLF_append (noLF_append (noLF_append
-      (digits_noLF l _ hl) h44) hexc) hb) h44) (digits_noLF br _ hr)) h44)
+      (digits_noLF l _ hl) h44) hexc) (digits_noLF blk _ hb)) h44) (digits_noLF br _ hr)) h44)
       (noLF_of_noEol ht)
   rcases heol with h | h <;> subst h
   · have e1 : [66, 82, 68, 65, 58] ++ l.bytes ++ [44] ++ excBytes exc ++ blk.bytes ++ [44] ++ br.bytes ++ [44] ++ taken ++ [LF]
@@ -476,15 +461,8 @@ theorem rec_bytes (branch : Bool) (eol : Bytes) (heol : eol = [LF] ∨ eol = [CR
   | brda l exc blk br taken =>
     obtain ⟨hl, hb, hbr, ht⟩ := hr
     cases branch with
-    | true =>
-      cases exc with
-      | false =>
-        simpa [renderRec, applyRec, excBytes] using brda_record_bytes_on a l blk br taken eol hl hb hbr ht heol
-      | true =>
-        simpa [renderRec, applyRec, excBytes] using brdaExc_record_bytes_on a l blk br taken eol hl hb hbr ht heol
-    | false =>
-      simpa [renderRec, applyRec] using
-        brda_record_bytes_off a l exc blk br taken eol hl (digits_noLF blk _ hb) hbr ht heol
+    | true => simpa [renderRec, applyRec] using brda_record_bytes_on a l exc blk br taken eol hl hb hbr ht heol
+    | false => simpa [renderRec, applyRec] using brda_record_bytes_off a l exc blk br taken eol hl hb hbr ht heol
   | other txt =>
     obtain ⟨ht, hb⟩ := hr
     cases txt with
@@ -528,7 +506,7 @@ theorem applyRec_frame (branch : Bool) (a : Acc) (r : Rec) :
     (applyRec branch a r).results = a.results ∧ (applyRec branch a r).curFile = a.curFile := by
   cases r
   case fnda c name => simp only [applyRec, commitFnda]; split <;> exact ⟨rfl, rfl⟩
-  case brda l exc blk br taken => cases branch <;> cases exc <;> exact ⟨rfl, rfl⟩
+  case brda l exc blk br taken => cases branch <;> exact ⟨rfl, rfl⟩
   all_goals exact ⟨rfl, rfl⟩
 
 theorem applyRecs_frame (branch : Bool) (a : Acc) (rs : List Rec) :
@@ -584,7 +562,7 @@ theorem applyRec_withResults (branch : Bool) (R : List (Bytes × Cov)) (a : Acc)
   case fnda c name =>
     simp only [commitFnda, withResults]
     cases get? a.cur.functions (utf8Lossy name) <;> rfl
-  case brda l exc blk br taken => cases branch <;> cases exc <;> rfl
+  case brda l exc blk br taken => cases branch <;> rfl
   all_goals rfl
 
 theorem applyRecs_withResults (branch : Bool) (R : List (Bytes × Cov)) (a : Acc) (rs : List Rec) :
